@@ -165,6 +165,10 @@ def byte_alias(c):
     return out
 
 
+SPECIALS = ["\ufeff", "\ufeff", "\ufeff", "\x00", "\u2028", "\u2029", "\u0085", "\r\n", "\r", "\ufffd", "\U0010ffff", "\u200b", "\u200d",
+            "\ud7ff", "\ue000", "\x7f", "\x1b", "\u0301", "\ufffe", "\u00a0", "\u3000"]
+
+
 def trunc(s, maxbytes):
     b = s.encode("utf-8")
     if len(b) <= maxbytes:
@@ -177,12 +181,27 @@ def trunc(s, maxbytes):
             b = b[:-1]
 
 
+def sibling(c, rnd):
+    """another character whose UTF-8 encoding starts with the same byte(s) as c's (differs in the low 6 bits, sometimes
+    the low 12): what anything keyed by a leading byte would confuse with c"""
+    o = ord(c)
+    if o < 0x80:
+        return c
+    for _ in range(8):
+        n = (o & ~0x3F) | rnd.randrange(64) if (o < 0x800 or rnd.random() < 0.7) else (o & ~0xFFF) | rnd.randrange(4096)
+        if n != o and 0x80 <= n <= 0x10FFFF and not (0xD800 <= n <= 0xDFFF) and len(chr(n).encode("utf-8")) == len(c.encode("utf-8")):
+            return chr(n)
+    return c
+
+
 def mutate(s, alpha, rnd):
     if not s:
         return rnd.choice(alpha)
     i = rnd.randrange(len(s))
     x = rnd.random()
     c = s[i]
+    if ord(c) >= 0x80 and rnd.random() < 0.3:
+        return s[:i] + sibling(c, rnd) + s[i + 1:]
     if x < 0.2:
         return s[:i] + s[i + 1:]
     if x < 0.35:
@@ -208,7 +227,7 @@ def mutate(s, alpha, rnd):
 
 
 def inputs_for(g: Grammar, rule: str, rnd: random.Random, n_sent=10, n_total=40, maxbytes=48, ws_inject=False,
-               unicode_heavy=False, long_inputs=False):
+               unicode_heavy=False, long_inputs=False, huge_inputs=False):
     sg = Sentences(g, rnd)
     alpha = sg.alphabet()
     if unicode_heavy:
@@ -234,6 +253,18 @@ def inputs_for(g: Grammar, rule: str, rnd: random.Random, n_sent=10, n_total=40,
             if len(out) >= n_total * 2 // 3:
                 break
             add(s[:k])
+    # characters with a special role somewhere else (byte order mark, NUL, other line separators, the ends of the
+    # code space, invisible and combining characters) in front of / behind / inside valid sentences
+    for s in sents[:3]:
+        sp = rnd.choice(SPECIALS)
+        x = rnd.random()
+        if x < 0.5:
+            add(sp + s)
+        elif x < 0.75:
+            add(s + sp)
+        else:
+            k = rnd.randint(0, len(s))
+            add(s[:k] + sp + s[k:])
     # trailing garbage / whitespace
     for s in sents[:4]:
         add(s + rnd.choice(alpha))
@@ -274,6 +305,20 @@ def inputs_for(g: Grammar, rule: str, rnd: random.Random, n_sent=10, n_total=40,
                     seen.add(z)
                     out.append(z)
         n_total += 2
+    if huge_inputs:
+        # a few inputs of several KB and beyond 64 KiB (offsets that no longer fit 8 / 16 bits, big caches, long lines
+        # and many lines); the reference evaluation drops those that nest deeply or need too many steps
+        cands = [x for x in sents if x] or [rnd.choice(alpha)]
+        for target in (5000, 70000):
+            s0 = rnd.choice(cands)
+            sep = rnd.choice(["", " ", "\n", " \n"])
+            unit = s0 + sep
+            z = unit * (target // max(1, len(unit.encode("utf-8"))) + 1)
+            for x in (z, z + rnd.choice(alpha) + "\x00"):
+                if x not in seen:
+                    seen.add(x)
+                    out.append(x)
+        n_total += 4
     # random strings
     for _ in range(max(2, n_total // 10)):
         add("".join(rnd.choice(alpha) for _ in range(rnd.randint(1, 6))))
